@@ -195,7 +195,7 @@ func c08Case(row cat.Row, word []h.Ev) fw.Case {
 			out := viol
 			// (BufferWithTimeOrCount keeps a ticker goroutine for its time side: no value travels through it
 			// in these scenarios, the period never elapses; the delivery clauses above still apply)
-			if r.Threads > 1 && row.Family != "BufferWithTimeOrCount" {
+			if r.Threads > 1 && !strings.HasPrefix(row.Family, "BufferWithTime") {
 				out = append(out, fw.V("pushed/"+row.Name+"/hidden-goroutine/spawn", fmt.Sprintf("a synchronous pipeline started %d extra goroutine(s)", r.Threads-1)))
 			}
 			return out
